@@ -5153,7 +5153,13 @@ bool SoPlexBase<R>::getBasisInverseTimesVecReal(R* rhs, R* sol, bool unscale)
             assert(index < numRows());
             assert(!_solver.isRowBasic(index));
 
-            x[i] = v[index] - (rowVectorRealInternal(index) * VectorBase<R>(numCols(), y.get_ptr()));
+            // the row vector and y live in the scaled space, so the right-hand side entry must be scaled as well
+            R rhsval = v[index];
+
+            if(adaptScaling)
+               rhsval = spxLdexp(rhsval, _scaler->getRowScaleExp(index));
+
+            x[i] = rhsval - (rowVectorRealInternal(index) * VectorBase<R>(numCols(), y.get_ptr()));
 
             if(adaptScaling)
             {
